@@ -292,6 +292,13 @@ inductive AuthFail where
   | authentication   -- refused by `authenticate` (l.199-206)
   deriving Repr, DecidableEq, Inhabited
 
+instance : DecidableEq (Except AuthFail Identity) := fun a b =>
+  match a, b with
+  | .ok x, .ok y => if h : x = y then isTrue (by rw [h]) else isFalse (fun e => by cases e; exact h rfl)
+  | .error x, .error y => if h : x = y then isTrue (by rw [h]) else isFalse (fun e => by cases e; exact h rfl)
+  | .ok _, .error _ => isFalse (fun e => by cases e)
+  | .error _, .ok _ => isFalse (fun e => by cases e)
+
 /-- the identity the session establishes for a connection, or why not -/
 def establish (cfg : AuthCfg) (peer : Option Cert) : Except AuthFail Identity :=
   match certStage cfg.tlsClientAuth peer with
@@ -410,8 +417,14 @@ def handleMessage {Q R σ} (env : Env Q R σ) (cfg : SessionCfg) (peer : Option 
 /-- every branch of `emit` leaves the record of the engine call alone -/
 theorem emit_engineCall {Q R σ} (env : Env Q R σ) (m : Mid Q R) : (emit env m).engineCall = m.engineCall := by
   unfold emit
-  repeat' split
-  all_goals rfl
+  split
+  · rfl
+  · split
+    · split
+      · rfl
+      · dsimp only
+        split <;> rfl
+    · rfl
 
 /-! ## (d) the outer loop -/
 
@@ -434,14 +447,14 @@ def run {Q R σ} (env : Env Q R σ) (cfg : SessionCfg) (peer : Option Cert) (s :
   | (.short p, c') =>
     have : connSize c' < connSize c := by
       have := receiveRequest_size_lt c; rw [h] at this; simpa using this
-    let (es, sf) := run env cfg peer s c'
-    (.badFrame p :: es, sf)
+    let t := run env cfg peer s c'
+    (.badFrame p :: t.1, t.2)
   | (.ok data, c') =>
     have : connSize c' < connSize c := by
       have := receiveRequest_size_lt c; rw [h] at this; simpa using this
-    let (o, s') := handleMessage env cfg peer s data
-    let (es, sf) := run env cfg peer s' c'
-    (.handled data o :: es, sf)
+    let r := handleMessage env cfg peer s data
+    let t := run env cfg peer r.2 c'
+    (.handled data r.1 :: t.1, t.2)
 termination_by connSize c
 
 /-- `KmipSession.run`: the loop runs only after a successful TLS handshake -/
